@@ -33,6 +33,8 @@ type Case struct {
 	TB   vkit.B `json:"text_b,omitempty"`
 	// Setting names the ComparePreRelease replacement active for the case ("" = library default).
 	Setting string `json:"compare_pre_release_setting,omitempty"`
+	// Limit, when set, is the sem.MaxInputLength in force for the case (0 = no limit).
+	Limit *int `json:"max_input_length,omitempty"`
 }
 
 func applySetting(name string) func() {
@@ -96,6 +98,11 @@ func judge(c Case, w *vkit.W) {
 			w.Fail(c, "panic", vkit.PanicDetail(p))
 		}
 	}()
+	if c.Limit != nil {
+		old := sem.MaxInputLength
+		sem.MaxInputLength = *c.Limit
+		defer func() { sem.MaxInputLength = old }()
+	}
 	switch c.Kind {
 	case "pair":
 		a, b := c.A.ver(), c.B.ver()
@@ -447,6 +454,46 @@ func TestCheck(t *testing.T) {
 				w.Eval(a1 || b1)
 				if a1 != b1 && w.WantSample() {
 					w.Sample(c)
+				}
+			}
+		})
+	})
+
+	r.Phase("E: string helpers on texts of 500 to 70000 bytes that differ only near their end, under a raised and a disabled MaxInputLength", func() {
+		r.Serial(func(w *vkit.W) {
+			for _, limit := range []int{0, 1 << 20} {
+				limit := limit
+				for _, n := range []int{500, 1010, 1016, 1017, 1018, 1019, 1024, 1030, 2047, 2048, 2049, 4096, 65536, 70000} {
+					stem := strings.Repeat("abcdefgh.", n/9+1)[:n]
+					stem = strings.TrimSuffix(stem, ".") + "z"
+					digits := strings.Repeat("1234567890", n/10+1)[:n]
+					for _, p := range [][2]string{{"1.0.0-" + stem + ".5", "1.0.0-" + stem + ".51"}, {"1.0.0-" + stem + ".a", "1.0.0-" + stem + ".b"}, {"1.0.0-" + stem + ".1", "1.0.0-" + stem + ".a"}, {"1.0.0-" + stem + ".x", "1.0.0-" + stem + ".x_"},
+						{"1.0.0-" + stem + "+b", "1.0.0-" + stem + ".0+c"}, {"1.0.0-" + stem, "1.0.0-" + stem}, {"1.0.0-rc+" + stem, "1.0.0-rc+" + stem + "!"}, {"1.0.0-" + digits + "1", "1.0.0-" + digits + "2"}, {"1.0.0-x." + digits + ".a", "1.0.0-x." + digits + ".b"},
+						{"1.0.0-" + stem + ".rc.1", "1.0.0-" + stem + ".rc.1.0"}, {"1.0.0-" + stem + ".01", "1.0.0-" + stem + ".1"}} {
+						for _, tag := range []string{"", "v"} {
+							c := Case{Kind: "helper", TA: vkit.B(tag + p[0]), TB: vkit.B(tag + p[1]), Limit: &limit}
+							judge(c, w)
+							judge(Case{Kind: "helper", TA: c.TB, TB: c.TA, Limit: &limit}, w)
+							w.EvalRandom(vkit.Hash64("E", strconv.Itoa(limit), strconv.Itoa(n), tag, p[0][len(p[0])-6:], p[1][len(p[1])-6:]), true)
+						}
+					}
+				}
+			}
+		})
+	})
+
+	r.Phase("F: string helpers on texts in which one character is a rune outside ASCII that folds or truncates to a grammar character", func() {
+		runes := ref.ConfusableRunes("0123456789abcdefghijklmnopqrstuvwxyzABCDEFGHIJKLMNOPQRSTUVWXYZ-.+v")
+		r.Extra("confusable_runes", len(runes))
+		r.Parallel(int64(len(runes)), 16, func(w *vkit.W, lo, hi int64) {
+			for k := lo; k < hi; k++ {
+				x := string(runes[k])
+				for _, tx := range []string{"1.0.0-" + x, "1.0.0-rc" + x + ".1", "1.0.0-1." + x + "a", "1.0.0+" + x, "1.0.0-rc+b" + x, x + ".0.0", "1." + x + ".0", "1.0." + x, "1.0.0" + x + "rc", "v1.0.0-x" + x, x + "1.0.0"} {
+					for _, other := range []string{"1.0.0-rc.1", "v1.0.0-rc.1", tx} {
+						judge(Case{Kind: "helper", TA: vkit.B(tx), TB: vkit.B(other)}, w)
+						judge(Case{Kind: "helper", TA: vkit.B(other), TB: vkit.B(tx)}, w)
+					}
+					w.EvalRandom(vkit.Hash64("F", tx), true)
 				}
 			}
 		})
